@@ -325,8 +325,11 @@ def _xa_slice(interp, st, xa, dim, lo, hi):
     if dim in coords:
         cd = coords[dim]
         coords[dim] = Arr((length,), lambda idx, cd=cd: cd.get((T.add(lo, idx[0]),)), (), cd.sort)
-    return mk_xa(st, dims, Arr(oshape, mkget(a), (), a.sort), Arr(oshape, mkget(nanarr), (), "bool") if nanarr is not None else None,
-                 coords, xa.fields["masks"], xa.fields["name"])
+    r = mk_xa(st, dims, Arr(oshape, mkget(a), (), a.sort), Arr(oshape, mkget(nanarr), (), "bool") if nanarr is not None else None,
+              coords, xa.fields["masks"], xa.fields["name"])
+    if xa.fields.get("scoords"):
+        st.deref(r).fields["scoords"] = dict(xa.fields["scoords"])
+    return r
 
 
 def xa_argmax(interp, st, xa, dim, skipna=True):
@@ -420,9 +423,23 @@ def xa_isel(interp, st, xa, indexers):
             def mkget(src, ax=ax, k=k):
                 return lambda idx: src.get(tuple(idx[:ax]) + (k,) + tuple(idx[ax:]))
             coords = {d: c for d, c in cur.fields["coords"].items() if d != dim}
+            sc = dict(cur.fields.get("scoords") or {})
+            if dim in cur.fields["coords"]:
+                # xarray keeps the coordinate value of an integer-indexed dimension as a scalar (0-d) coordinate
+                sc[dim] = CArr((), {(): cur.fields["coords"][dim].get((k,))}, cur.fields["coords"][dim].sort)
             cur = st.deref(mk_xa(st, odims, Arr(oshape, mkget(a), (), a.sort),
                                  Arr(oshape, mkget(nanarr), (), "bool") if nanarr is not None else None, coords,
                                  {d: m for d, m in cur.fields["masks"].items() if d != dim}))
+            if sc:
+                cur.fields["scoords"] = sc
+            continue
+        from ..interp import Slice as _Slice
+        if isinstance(ind, _Slice):
+            if ind.step is not None and ind.step != 1:
+                raise Unsupported("isel slice with a step")
+            if ind.lo is None and ind.hi is None:
+                continue
+            cur = st.deref(_xa_slice(interp, st, cur, dim, ind.lo, ind.hi))
             continue
         raise Unsupported(f"isel indexer {type(ind).__name__}")
     return cur
@@ -529,9 +546,27 @@ class XrPlugin:
                 sk = s.deref(k.get("skipna", True))
                 return xa_mean(i, s, o, dim, True if sk is None else bool(sk))
             return method(mean)
+        if name == "std":
+            def std(i, s, a, k):
+                dim = s.deref(k["dim"]) if "dim" in k else (s.deref(a[0]) if a else None)
+                if not isinstance(dim, str) or k.get("ddof"):
+                    raise Unsupported("std over all / several dimensions or with ddof")
+                sk = s.deref(k.get("skipna", True))
+                sk = True if sk is None else bool(sk)
+                if sk and f["nan"] is not None:
+                    raise Unsupported("std(skipna=True) of data with missing values")
+                # population standard deviation: sqrt(mean((x - mean(x))**2)) along dim
+                m = s.deref(xa_mean(i, s, o, dim, sk))
+                dev = s.deref(xr_apply(s, T.sub, [o, m]))
+                sq = s.deref(xr_apply(s, T.mul, [dev, dev]))
+                var = s.deref(xa_mean(i, s, sq, dim, sk))
+                return xr_apply(s, lambda x: T.uf("sqrt", x), [var])
+            return method(std)
         if name == "argmax":
             return method(lambda i, s, a, k: xa_argmax(i, s, o, s.deref(k["dim"]) if "dim" in k else s.deref(a[0]),
                                                        skipna=(True if k.get("skipna", True) is None else bool(s.deref(k.get("skipna", True))))))
+        if name == "__getitem__":
+            return method(lambda i, s, a, k: self.special_getitem(i, s, ref, o, a[0]))
         if name == "copy":
             return method(lambda i, s, a, k: mk_xa(s, f["dims"], f["arr"], f["nan"], f["coords"], f["masks"], f["name"]))
         if name == "drop" or name == "drop_vars":
@@ -654,13 +689,47 @@ class XrPlugin:
     def special_iterate(self, interp, st, v, o):
         if isinstance(o, Obj) and o.cls == "Dataset":
             return list(o.fields["vars"].keys())
+        if isinstance(o, Obj) and not isinstance(o.cls, str) and interp.class_lookup(o.cls, "__iter__"):
+            # iteration protocol of a repository class: iterate what its __iter__ returns
+            return interp.iterate(st, interp.call_method(st, v, "__iter__", [], {}))
         return NotImplemented
 
     def special_setitem(self, interp, st, ref, o, idx, v):
         if isinstance(o, Obj) and o.cls == "Dataset":
             k = st.deref(idx)
+            vv = st.deref(v)
+            if isinstance(vv, list) and isinstance(k, str):
+                # ds[name] = [v0, v1, ...]: a one-dimensional variable along a dimension of the same name, i.e. the
+                # dimension coordinate `name` with these values
+                cells = {}
+                for j, x in enumerate(vv):
+                    x = st.deref(x)
+                    if isinstance(x, Arr):
+                        if x.ndim != 0:
+                            raise Unsupported("Dataset[name] = list of non-scalar arrays")
+                        x = x.get(())
+                    if not T.is_num(x):
+                        raise Unsupported("Dataset[name] = list of non-numbers")
+                    cells[(j,)] = x
+                o.fields["coords"][k] = CArr((len(vv),), cells)
+                o.fields.setdefault("index_from_list", set()).add(k)
+                o.fields.setdefault("writes", []).append(k)
+                return True
             o.fields["vars"][k] = v
             o.fields.setdefault("writes", []).append(k)
+            if is_xa(vv):
+                # the variable brings its dimension coordinates along (existing coordinates of the dataset are kept)
+                for ck, cv in vv.fields["coords"].items():
+                    if ck in o.fields.get("index_from_list", ()):
+                        # xarray aligns an assigned variable to the dataset's existing index (re-ordering / NaN-filling it):
+                        # only the case in which nothing is re-aligned - identical coordinate values - is modelled
+                        mine = o.fields["coords"][ck]
+                        same = isinstance(cv, CArr) and cv.shape == mine.shape and all(
+                            (cv.data[c] is mine.data[c]) or (is_sym(cv.data[c]) and is_sym(mine.data[c]) and cv.data[c].eq(mine.data[c]))
+                            or (not is_sym(cv.data[c]) and not is_sym(mine.data[c]) and cv.data[c] == mine.data[c]) for c in mine.data)
+                        if not same:
+                            raise Unsupported(f"Dataset[name] = DataArray whose {ck} coordinate is not identical to the dataset's index (alignment not modelled)")
+                    o.fields["coords"].setdefault(ck, cv)
             return True
         return NotImplemented
 
@@ -670,6 +739,8 @@ class XrPlugin:
             return o.fields["vars"][k]
         if k in o.fields["coords"]:
             c = o.fields["coords"][k]
+            if c.ndim == 0:
+                return mk_xa(st, (), c, None, {})
             return mk_xa(st, (k,), c, None, {k: c})
         from ..interp import PyRaise
         raise PyRaise(ExcVal("KeyError", (k,)))
@@ -709,8 +780,37 @@ class XrPlugin:
                     if is_xa(vv):
                         for ck, cv in vv.fields["coords"].items():
                             cs.setdefault(ck, cv)
+                        for ck, cv in (vv.fields.get("scoords") or {}).items():
+                            if ck not in nv:
+                                cs.setdefault(ck, cv)
                 return s.alloc(Obj("Dataset", {"vars": nv, "coords": cs}), "Dataset")
             return LibFunc("Dataset.assign", lib._wrap("xarray.Dataset.assign", assign))
+        if name == "dims":
+            # names of the dimensions of the variables (in order of first appearance)
+            ds_ = []
+            for v in o.fields["vars"].values():
+                x = st.deref(v)
+                if is_xa(x):
+                    for d in x.fields["dims"]:
+                        if d not in ds_:
+                            ds_.append(d)
+            return tuple(ds_)
+        if name == "reset_coords":
+            def reset(i, s, a, k):
+                nm = s.deref(a[0] if a else k["names"])
+                if not isinstance(nm, str) or k.get("drop"):
+                    raise Unsupported("reset_coords: only a single name, drop=False")
+                from ..interp import PyRaise
+                if nm not in o.fields["coords"]:
+                    raise PyRaise(ExcVal("ValueError", ("not a coordinate",)))
+                c = o.fields["coords"][nm]
+                if c.ndim != 0:
+                    raise PyRaise(ExcVal("ValueError", ("cannot remove index coordinates with reset_coords",)))
+                # a non-index (scalar) coordinate becomes a data variable with the same value
+                nv = dict(o.fields["vars"])
+                nv[nm] = mk_xa(s, (), c, None, {})
+                return s.alloc(Obj("Dataset", {"vars": nv, "coords": {kk: vv for kk, vv in o.fields["coords"].items() if kk != nm}}), "Dataset")
+            return LibFunc("Dataset.reset_coords", lib._wrap("xarray.Dataset.reset_coords", reset))
         if name in o.fields["vars"] or name in o.fields["coords"]:
             return self._ds_get(interp, st, o, name)
         return NotImplemented
@@ -736,6 +836,56 @@ def _xr_where(interp, st, args, kwargs):
 
 
 REG["xarray.where"] = LibFunc("xarray.where", lib._wrap("xarray.where", _xr_where))
+
+
+def _xr_concat(interp, st, args, kwargs):
+    """xarray.concat([a_0, ..., a_{N-1}], dim=name) for DataArrays of one common layout (same dimension names, sizes and
+    dimension coordinates) that do NOT have the dimension `name`: a new leading dimension `name` of length N, member k is the
+    k-th argument (values and missing flags); if every argument carries `name` as a scalar coordinate, these N values become
+    the coordinate of the new dimension.  (Arguments on different coordinates would be outer-joined by xarray: not modelled.)"""
+    objs = st.deref(args[0] if args else kwargs["objs"])
+    dim = st.deref(kwargs["dim"] if "dim" in kwargs else args[1])
+    if set(kwargs) - {"dim", "objs"} or not isinstance(dim, str) or not isinstance(objs, (list, tuple)) or not objs:
+        raise Unsupported("xarray.concat: only concat(list of DataArrays, dim=name)")
+    xs = [st.deref(x) for x in objs]
+    if not all(is_xa(x) for x in xs):
+        raise Unsupported("xarray.concat of something that is not a DataArray")
+    x0 = xs[0]
+    dims, shape = x0.fields["dims"], tuple(x0.fields["arr"].shape)
+    if dim in dims:
+        raise Unsupported("xarray.concat along an existing dimension")
+    for x in xs[1:]:
+        if x.fields["dims"] != dims or x.fields["masks"] or x0.fields["masks"]:
+            raise Unsupported("xarray.concat of DataArrays with different layouts")
+        for n0, n1 in zip(shape, x.fields["arr"].shape):
+            if not (n0 is n1 or (isinstance(n0, int) and isinstance(n1, int) and n0 == n1) or interp.valid(st, T.to_z3(T.cmp("==", n0, n1)), timeout=3000)):
+                raise Unsupported("xarray.concat of DataArrays with different sizes")
+        if set(x.fields["coords"]) != set(x0.fields["coords"]) or any(x.fields["coords"][d] is not x0.fields["coords"][d] for d in x0.fields["coords"]):
+            raise Unsupported("xarray.concat of DataArrays on different coordinates")
+    N = len(xs)
+
+    def stack(srcs):
+        def g(ix):
+            k = ix[0]
+            if isinstance(k, int):
+                return srcs[k].get(tuple(ix[1:]))
+            v = srcs[N - 1].get(tuple(ix[1:]))
+            for j in range(N - 2, -1, -1):
+                v = T.ite(T.cmp("==", k, j), srcs[j].get(tuple(ix[1:])), v)
+            return v
+        return g
+    arr = Arr((N,) + shape, stack([x.fields["arr"] for x in xs]), (), x0.fields["arr"].sort)
+    nan = None
+    if any(x.fields["nan"] is not None for x in xs):
+        false = Arr(shape, lambda ix: False, (), "bool")
+        nan = Arr((N,) + shape, stack([x.fields["nan"] if x.fields["nan"] is not None else false for x in xs]), (), "bool")
+    coords = dict(x0.fields["coords"])
+    if all(dim in (x.fields.get("scoords") or {}) for x in xs):
+        coords[dim] = CArr((N,), {(j,): x.fields["scoords"][dim].get(()) for j, x in enumerate(xs)})
+    return mk_xa(st, (dim,) + dims, arr, nan, coords)
+
+
+REG["xarray.concat"] = LibFunc("xarray.concat", lib._wrap("xarray.concat", _xr_concat))
 
 
 def _xr_dataarray(interp, st, args, kwargs):
